@@ -562,8 +562,11 @@ func (*Parser).parseOverWhen
   requires parOK(p)
   modifies heap(Lexer.ch), heap(Lexer.pos), heap(Lexer.readPos), heap(Lexer.line), heap(Lexer.column), p.errorRecovery.errors
   ensures parOK(p) && errOK(result1) && p.lexer.pos >= old(p.lexer.pos)
-  loop 1 invariant parOK(p) && p.lexer.pos >= old(p.lexer.pos) && 0 <= i
+  loop 1 invariant parOK(p) && p.lexer.pos >= old(p.lexer.pos) && 0 <= i && $restores == 0
   loop 1 decreases 100 - i
+  count restores := restore
+  before restore the-token-that-ends-the-condition-a-closing-parenthesis-or-partition-is-handed-back-to-the-caller: $arg1 == snap && depth == 0 && (t.Type == TokenRParen || t.Type == TokenPARTITION)
+  atreturn a-condition-that-was-read-ends-with-its-terminator-handed-back: result1 == nil ==> $restores == 1
 
 func (*Parser).parseOverClause
   props C11 C06 C16 C17
